@@ -537,7 +537,7 @@ ASSUMPTIONS = [
 EXPLANATION = "Structural-induction step for every XmlGenerator callback."
 MANIFEST = {
     "category": "proof",
-    "text": "Every exit callback of XmlGenerator is verified as a structural-induction step over the real source: with the children's elements given, the node's element has the tag and attributes of its kind/operator (symbolic strings) and the children's elements in order, one each; symbols carry name, builtin type, the first matching variability and exact literal start/value/fixed items; classes one component per symbol and one equation element per equation. A bounded replay parses the XML produced for real flat models and compares it with the flat AST.",
+    "text": "Every exit callback of XmlGenerator is verified as a structural-induction step over the real source: with the children's elements given, the node's element has the tag and attributes of its kind/operator (symbolic strings) and the children's elements in order, one each; symbols carry name, builtin type, the first matching variability and exact literal start/value/fixed items; classes one component per symbol and one equation element per equation. A bounded replay parses the XML produced for real flat models and compares it with the flat AST. Two classes of one flat tree with a common variable name: each class element lists the components of its own symbols, in both walk orders.",
     "note": "lxml's E-factory and the TreeWalker order are assumed; child counts and literal values enumerated.",
     "technique": "contract-based deductive verification: per-callback structural-induction obligations by symbolic execution with a free-constructor model of lxml, z3",
 }
